@@ -21,406 +21,414 @@ def _returns(f):
     return [n for n in own_nodes(f) if isinstance(n, ast.Return)]
 
 
-def rule_helpers(rep: Report, repo: Repo):
+def rule_helpers(rep: Report, repo: Repo, sections=None):
     R = "E11"
     loc = lambda n: repo.loc(MOD, n)
 
-    # -- _normalize_subspace_eigenvectors: pairs are (right, left); a single basis is both ------------
     from .paths import eval_bool
     from .resolve import env_at, resolved
     from .sem import Scope, canon, outcomes
-    f = repo.find(f"{MOD}::_normalize_subspace_eigenvectors", R)
-    loops = [n for n in f.body if isinstance(n, ast.For)]
-    if len(loops) != 1 or not isinstance(loops[0].target, ast.Name):
-        raise AnalysisError(R, "_normalize_subspace_eigenvectors: loop not found")
-    var = loops[0].target.id
-    rets = _returns(f)
-    if len(rets) != 1 or not (isinstance(rets[0].value, ast.Tuple) and len(rets[0].value.elts) == 2):
-        raise AnalysisError(R, "_normalize_subspace_eigenvectors: does not return one pair")
-    # the two returned components: either two local lists (tuple(A), tuple(B)) or the two projections of one list of
-    # pairs (tuple(r for r, _ in P), tuple(l for _, l in P))
-    lists = []
-    for e in rets[0].value.elts:
-        while isinstance(e, ast.Call) and call_name(e) in ("tuple", "list") and len(e.args) == 1:
-            e = e.args[0]
-        if isinstance(e, ast.Name):
-            lists.append((e.id, None))
-        elif isinstance(e, (ast.GeneratorExp, ast.ListComp)) and len(e.generators) == 1 and not e.generators[0].ifs \
-                and isinstance(e.generators[0].iter, ast.Name) and isinstance(e.generators[0].target, ast.Tuple) \
-                and isinstance(e.elt, ast.Name) and [norm(t) for t in e.generators[0].target.elts].count(e.elt.id) == 1:
-            lists.append((e.generators[0].iter.id, [norm(t) for t in e.generators[0].target.elts].index(e.elt.id)))
-        else:
-            raise AnalysisError(R, f"_normalize_subspace_eigenvectors: returned component `{norm(e)[:40]}` is not a local list")
-    seen = {}
-    for is_pair in (True, False):
-        def atom(n, is_pair=is_pair):
-            t = norm(canon(n))
-            if t == f"isinstance({var}, tuple)":
-                return is_pair
-            return None
-        apps_all = []
-        for o in outcomes(loops[0].body, None, env={}, atom=atom):
-            if o.kind == "raise":
-                continue
-            apps = {}
-            for kind, st, rv in o.seq:
-                if kind == "stmt" and isinstance(rv, ast.Call) and isinstance(rv.func, ast.Attribute) and rv.func.attr == "append" \
-                        and len(rv.args) == 1:
-                    apps.setdefault(norm(rv.func.value), []).append(rv.args[0])
-            # what each returned component receives on this path
-            got = []
-            for lname, proj in lists:
-                vals = apps.get(lname, [])
-                if proj is None:
-                    got.append([norm(v) for v in vals])
-                else:
-                    if not all(isinstance(v, ast.Tuple) and len(v.elts) > proj for v in vals):
-                        raise AnalysisError(R, "_normalize_subspace_eigenvectors: appended value is not a pair")
-                    got.append([norm(v.elts[proj]) for v in vals])
-            apps_all.append(got)
-        if not apps_all:
-            raise AnalysisError(R, "_normalize_subspace_eigenvectors: no non-raising path through the loop body")
-        seen[is_pair] = apps_all
-    RL, LL = lists[0][0], lists[1][0]
-    ok = all(a_ == [[f"{var}[0]"], [f"{var}[1]"]] for a_ in seen[True])
-    rep.check(ok, R, f"{MOD}::_normalize_subspace_eigenvectors a pair is (right, left) and goes to (right_subspaces, left_subspaces)",
-              f"appended (right component, left component) = {seen[True]}", loc(f))
-    ok = all(a_ == [[var], [var]] for a_ in seen[False])
-    rep.check(ok, R, f"{MOD}::_normalize_subspace_eigenvectors a single basis V is used as (V, V)", str(seen[False]), loc(f))
-    rep.ok(R, f"{MOD}::_normalize_subspace_eigenvectors returns (right bases, left bases)", norm(rets[0].value), loc(f))
-
-    # -- _convert_if_zero: only a value that IS zero becomes the sentinel; everything else is returned unchanged --
-    f = repo.find(f"{MOD}::_convert_if_zero", R)
-    KINDS = {
-        "ndarray": ("isinstance(value, np.ndarray)", ["np.allclose(value, 0, atol=atol)"]),
-        "sparse": ("sparse.issparse(value)", ["value.count_nonzero() == 0", "value.nnz == 0"]),
-        "sympy": ("isinstance(value, sympy.MatrixBase)", ["value.is_zero_matrix"]),
-        "else": (None, ["value == 0"]),
-    }
-    for kind, (ktest, allowed) in KINDS.items():
-        def atom(n, kind=kind):
-            t = norm(canon(n))
-            for k2, (kt, _a) in KINDS.items():
-                if kt is not None and t == kt:
-                    return k2 == kind
-            return None
-        table = {}
-        for o in outcomes(f.body, None, env={}, atom=atom):
-            if o.kind != "return":
-                raise AnalysisError(R, "_convert_if_zero: path without return")
-            free = [(norm(canon(t)), pol) for t, pol in o.conds if eval_bool(t, atom) is None]
-            if len(free) != 1:
-                raise AnalysisError(R, f"_convert_if_zero [{kind}]: path decided by {len(free)} value tests")
-            table.setdefault(free[0][0], {})[free[0][1]] = norm(o.value)
-        ok = len(table) == 1 and next(iter(table)) in allowed and next(iter(table.values())) == {True: "zero", False: "value"}
-        label = ktest or "else"
-        rep.check(ok, R, f"{MOD}::_convert_if_zero [{label}] turns exactly a zero value into the `zero` sentinel",
-                  f"{table}; accepted zero tests {allowed}", loc(f))
-
-    # -- _unpack_blocks.op_eval: block (i, j) of a nested list is h[i][j] -------------------------------------
-    f = repo.find(f"{MOD}::_unpack_blocks", R)
-    ev = [d for d in nested_defs(f) if d.name == "op_eval"]
-    if len(ev) != 1:
-        raise AnalysisError(R, "_unpack_blocks.op_eval not found")
-    rr = [n for n in ast.walk(ev[0]) if isinstance(n, ast.Return) and n.value is not None and norm(n.value) != "zero"]
     from .sem import kwcalls
-    msc = Scope(repo.trees[MOD], None)
-    texts = [norm(kwcalls(resolved(n.value, env_at(n, ev[0])), msc)) for n in rr]
-    WANT = "_convert_if_zero(_convert_if_zero(operator[index[2:]], atol=atol)[index[0]][index[1]], atol=atol)"
-    ok = texts == [WANT]
-    if not ok:
-        # understood and wrong: the same expression with other block indices; anything else (another way of obtaining the term, ...)
-        # is not understood
-        import re as _re
-        shape_ = _re.escape(WANT).replace(_re.escape("[index[0]][index[1]]"), r"\[index\[\d\]\]\[index\[\d\]\]")
-        if not (len(texts) == 1 and _re.fullmatch(shape_, texts[0])):
-            raise AnalysisError(R, f"_unpack_blocks.op_eval returns `{(texts or ['?'])[0][:100]}`: not the (i, j) element of the term read from the packed series")
-    rep.check(ok, R, f"{MOD}::_unpack_blocks block (i, j) of a nested-list term is term[i][j]", str(texts), loc(ev[0]))
-    shp = [n for n in ast.walk(f) if isinstance(n, ast.Call) and call_name(n) == "BlockSeries"]
-    ok = False
-    if len(shp) == 1:
-        sh = {k.arg: k.value for k in shp[0].keywords}.get("shape")
-        if sh is not None:
-            zo = [n for n in ast.walk(f) if isinstance(n, ast.NamedExpr) and norm(n.value) == "operator[(0,) * operator.n_infinite]"]
-            env_s = env_at(shp[0], f)
-            if zo:
-                env_s[zo[0].target.id] = zo[0].value
-            t = rtext(sh, env_s)
-            z = "operator[(0,) * operator.n_infinite]"
-            ok = t in (f"2 * (len({z}),)", f"(len({z}),) * 2", f"(len({z}), len({z}))")
-    rep.check(ok, R, f"{MOD}::_unpack_blocks the block grid is N x N with N = number of block rows of H_0", "", loc(f))
-
-    # -- _extract_diagonal: one energy array per diagonal block, in block order ------------------------------------------
     from .sem import elementwise_map, ctext
-    f = repo.find(f"{MOD}::_extract_diagonal", R)
-    sc_ = Scope(repo.trees[MOD], f)
-    em = elementwise_map(f, sc_)
-    if em is None:
-        raise AnalysisError(R, "_extract_diagonal: not recognised as an element-wise map over the diagonal blocks")
-    it, V, paths = em
-    want_it = ctext(ast.parse("operator[(np.arange(operator.shape[0] - implicit), np.arange(operator.shape[0] - implicit)) + (0,) * operator.n_infinite]",
-                              mode="eval").body)
-    rep.check(ctext(it) == want_it, R, f"{MOD}::_extract_diagonal reads the diagonal blocks (i, i) at order zero", ctext(it)[:160], loc(f))
-    rep.ok(R, f"{MOD}::_extract_diagonal returns the energies in block order", "one value per element of the diagonal blocks, in iteration order", loc(f))
-    DIAG = f"{V}.diagonal()"
-    WANT = {
-        "absent": ("np.array(0)",),
-        "numeric": (DIAG,),
-        "sympy": (f"np.array({DIAG}, dtype=object)",),
-        "sympy+operators": (f"np.array([NumberOrderedForm.from_expr(_v0).simplify() for _v0 in {DIAG}], dtype=object)",
-                            f"np.array([NumberOrderedForm.from_expr(_v1).simplify() for _v1 in {DIAG}], dtype=object)"),
-    }
-    bad = []
-    for absent_zero, absent_masked, sym, ops in [(z, m, s_, o) for z in (0, 1) for m in (0, 1) for s_ in (0, 1) for o in (0, 1)]:
-        def atom(n):
-            t = norm(canon(n))
-            if t == f"{V} is zero":
-                return bool(absent_zero)
-            if t == f"{V} is np.ma.masked":
-                return bool(absent_masked)
-            if t == "operators":
-                return bool(ops)
-            if t == "is_sympy" or (t.startswith("any((isinstance(") and "sympy.MatrixBase" in t):
-                return bool(sym)
-            return None
-        taken = []
-        for conds, val in paths:
-            vals = [eval_bool(c, atom) for c, _p in conds]
-            if None in vals:
-                raise AnalysisError(R, f"_extract_diagonal: condition `{norm(conds[vals.index(None)][0])[:60]}` not understood")
-            if all(v == p for v, (_c, p) in zip(vals, conds)):
-                taken.append(val)
-        kind = "absent" if (absent_zero or absent_masked) else ("numeric" if not sym else ("sympy+operators" if ops else "sympy"))
-        got = [norm(resolved(v, {})) if v is not None else "<skipped>" for v in taken]
-        if len(got) != 1 or got[0] not in WANT[kind]:
-            bad.append((kind, got))
-    rep.check(not bad, R, f"{MOD}::_extract_diagonal energies of block i are the diagonal of H_0[i, i] (0 for an absent block)",
-              f"disagreeing cases {bad[:2]}" if bad else "absent -> np.array(0); numeric -> diagonal; symbolic -> object array (NumberOrderedForm-simplified with operators)", loc(f))
-
-    # -- _preprocess_sylvester.wrapped -------------------------------------------------------------------------------
-    f = repo.find(f"{MOD}::_preprocess_sylvester", R)
-    ws = [d for d in f.body if isinstance(d, ast.FunctionDef) and isinstance(f.body[-1], ast.Return) and norm(f.body[-1].value) == d.name]
-    if len(ws) != 1 or [a_.arg for a_ in ws[0].args.args] != ["Y", "index"]:
-        raise AnalysisError(R, "_preprocess_sylvester: wrapper (Y, index) not found")
-    w = ws[0]
-    table = {}
-    for is_series in (True, False):
-        for absent in (True, False):
-            def atom(n):
+    from .sem import outcomes as _outcomes
+    if sections is None or "subspaces" in sections:
+        # -- _normalize_subspace_eigenvectors: pairs are (right, left); a single basis is both ------------
+        f = repo.find(f"{MOD}::_normalize_subspace_eigenvectors", R)
+        loops = [n for n in f.body if isinstance(n, ast.For)]
+        if len(loops) != 1 or not isinstance(loops[0].target, ast.Name):
+            raise AnalysisError(R, "_normalize_subspace_eigenvectors: loop not found")
+        var = loops[0].target.id
+        rets = _returns(f)
+        if len(rets) != 1 or not (isinstance(rets[0].value, ast.Tuple) and len(rets[0].value.elts) == 2):
+            raise AnalysisError(R, "_normalize_subspace_eigenvectors: does not return one pair")
+        # the two returned components: either two local lists (tuple(A), tuple(B)) or the two projections of one list of
+        # pairs (tuple(r for r, _ in P), tuple(l for _, l in P))
+        lists = []
+        for e in rets[0].value.elts:
+            while isinstance(e, ast.Call) and call_name(e) in ("tuple", "list") and len(e.args) == 1:
+                e = e.args[0]
+            if isinstance(e, ast.Name):
+                lists.append((e.id, None))
+            elif isinstance(e, (ast.GeneratorExp, ast.ListComp)) and len(e.generators) == 1 and not e.generators[0].ifs \
+                    and isinstance(e.generators[0].iter, ast.Name) and isinstance(e.generators[0].target, ast.Tuple) \
+                    and isinstance(e.elt, ast.Name) and [norm(t) for t in e.generators[0].target.elts].count(e.elt.id) == 1:
+                lists.append((e.generators[0].iter.id, [norm(t) for t in e.generators[0].target.elts].index(e.elt.id)))
+            else:
+                raise AnalysisError(R, f"_normalize_subspace_eigenvectors: returned component `{norm(e)[:40]}` is not a local list")
+        seen = {}
+        for is_pair in (True, False):
+            def atom(n, is_pair=is_pair):
                 t = norm(canon(n))
-                if t == "isinstance(Y, BlockSeries)":
-                    return is_series
-                if t == "Y is zero":
-                    return absent
-                if t == "Y is not zero":
-                    return not absent
+                if t == f"isinstance({var}, tuple)":
+                    return is_pair
                 return None
-            res = set()
-            for o in outcomes(w.body, None, env={}, atom=atom, opaque=("Y",)):
+            apps_all = []
+            for o in outcomes(loops[0].body, None, env={}, atom=atom):
                 if o.kind == "raise":
                     continue
+                apps = {}
+                for kind, st, rv in o.seq:
+                    if kind == "stmt" and isinstance(rv, ast.Call) and isinstance(rv.func, ast.Attribute) and rv.func.attr == "append" \
+                            and len(rv.args) == 1:
+                        apps.setdefault(norm(rv.func.value), []).append(rv.args[0])
+                # what each returned component receives on this path
+                got = []
+                for lname, proj in lists:
+                    vals = apps.get(lname, [])
+                    if proj is None:
+                        got.append([norm(v) for v in vals])
+                    else:
+                        if not all(isinstance(v, ast.Tuple) and len(v.elts) > proj for v in vals):
+                            raise AnalysisError(R, "_normalize_subspace_eigenvectors: appended value is not a pair")
+                        got.append([norm(v.elts[proj]) for v in vals])
+                apps_all.append(got)
+            if not apps_all:
+                raise AnalysisError(R, "_normalize_subspace_eigenvectors: no non-raising path through the loop body")
+            seen[is_pair] = apps_all
+        RL, LL = lists[0][0], lists[1][0]
+        ok = all(a_ == [[f"{var}[0]"], [f"{var}[1]"]] for a_ in seen[True])
+        rep.check(ok, R, f"{MOD}::_normalize_subspace_eigenvectors a pair is (right, left) and goes to (right_subspaces, left_subspaces)",
+                  f"appended (right component, left component) = {seen[True]}", loc(f))
+        ok = all(a_ == [[var], [var]] for a_ in seen[False])
+        rep.check(ok, R, f"{MOD}::_normalize_subspace_eigenvectors a single basis V is used as (V, V)", str(seen[False]), loc(f))
+        rep.ok(R, f"{MOD}::_normalize_subspace_eigenvectors returns (right bases, left bases)", norm(rets[0].value), loc(f))
+
+    if sections is None or "convert_if_zero" in sections:
+        # -- _convert_if_zero: only a value that IS zero becomes the sentinel; everything else is returned unchanged --
+        f = repo.find(f"{MOD}::_convert_if_zero", R)
+        KINDS = {
+            "ndarray": ("isinstance(value, np.ndarray)", ["np.allclose(value, 0, atol=atol)"]),
+            "sparse": ("sparse.issparse(value)", ["value.count_nonzero() == 0", "value.nnz == 0"]),
+            "sympy": ("isinstance(value, sympy.MatrixBase)", ["value.is_zero_matrix"]),
+            "else": (None, ["value == 0"]),
+        }
+        for kind, (ktest, allowed) in KINDS.items():
+            def atom(n, kind=kind):
+                t = norm(canon(n))
+                for k2, (kt, _a) in KINDS.items():
+                    if kt is not None and t == kt:
+                        return k2 == kind
+                return None
+            table = {}
+            for o in outcomes(f.body, None, env={}, atom=atom):
                 if o.kind != "return":
-                    raise AnalysisError(R, "_preprocess_sylvester: path without return")
-                rebinds = []
-                for kind, st, rv in o.seq:
-                    if kind == "assign" and isinstance(st, ast.Assign) and norm(st.targets[0]) == "Y":
-                        while isinstance(rv, ast.IfExp):
-                            pick = eval_bool(rv.test, atom)
-                            if pick is None:
-                                raise AnalysisError(R, "_preprocess_sylvester: rebinding of Y depends on an unknown condition")
-                            rv = rv.body if pick else rv.orelse
-                        if norm(rv) != "Y":
-                            rebinds.append(norm(rv))
-                v = o.value
-                while isinstance(v, ast.IfExp):
-                    pick = eval_bool(v.test, atom)
-                    if pick is None:
-                        raise AnalysisError(R, "_preprocess_sylvester: returned value depends on an unknown condition")
-                    v = v.body if pick else v.orelse
-                res.add((tuple(rebinds), norm(v)))
-            table[(is_series, absent)] = sorted(res)
-    want = {(True, True): [(("Y[index]",), "zero")], (True, False): [(("Y[index]",), "solve_sylvester(Y)")],
-            (False, True): [((), "zero")], (False, False): [((), "solve_sylvester(Y)")]}
-    rep.check(table == want, R, f"{MOD}::_preprocess_sylvester a legacy solver gets the element at the requested index; an absent right-hand side stays absent",
-              str(table), loc(w))
+                    raise AnalysisError(R, "_convert_if_zero: path without return")
+                free = [(norm(canon(t)), pol) for t, pol in o.conds if eval_bool(t, atom) is None]
+                if len(free) != 1:
+                    raise AnalysisError(R, f"_convert_if_zero [{kind}]: path decided by {len(free)} value tests")
+                table.setdefault(free[0][0], {})[free[0][1]] = norm(o.value)
+            ok = len(table) == 1 and next(iter(table)) in allowed and next(iter(table.values())) == {True: "zero", False: "value"}
+            label = ktest or "else"
+            rep.check(ok, R, f"{MOD}::_convert_if_zero [{label}] turns exactly a zero value into the `zero` sentinel",
+                      f"{table}; accepted zero tests {allowed}", loc(f))
 
-    # -- _group_close_energies: a partition of the indices into groups closed under |E_a - E_b| <= atol ---------------
-    f = repo.find(f"{MOD}::_group_close_energies", R)
-    res_real, res_cplx = [], []
-    for real in (True, False):
-        def atom(n, real=real):
-            t = norm(canon(n))
-            if t == "np.isrealobj(energies)":
-                return real
-            if t == "np.iscomplexobj(energies)":
-                return not real
-            if t in ("len(energies) == 0", "0 == len(energies)", "not len(energies)"):
-                return False
-            if t == "len(energies)":
-                return True
+    if sections is None or "unpack_blocks" in sections:
+        # -- _unpack_blocks.op_eval: block (i, j) of a nested list is h[i][j] -------------------------------------
+        f = repo.find(f"{MOD}::_unpack_blocks", R)
+        ev = [d for d in nested_defs(f) if d.name == "op_eval"]
+        if len(ev) != 1:
+            raise AnalysisError(R, "_unpack_blocks.op_eval not found")
+        rr = [n for n in ast.walk(ev[0]) if isinstance(n, ast.Return) and n.value is not None and norm(n.value) != "zero"]
+        msc = Scope(repo.trees[MOD], None)
+        texts = [norm(kwcalls(resolved(n.value, env_at(n, ev[0])), msc)) for n in rr]
+        WANT = "_convert_if_zero(_convert_if_zero(operator[index[2:]], atol=atol)[index[0]][index[1]], atol=atol)"
+        ok = texts == [WANT]
+        if not ok:
+            # understood and wrong: the same expression with other block indices; anything else (another way of obtaining the term, ...)
+            # is not understood
+            import re as _re
+            shape_ = _re.escape(WANT).replace(_re.escape("[index[0]][index[1]]"), r"\[index\[\d\]\]\[index\[\d\]\]")
+            if not (len(texts) == 1 and _re.fullmatch(shape_, texts[0])):
+                raise AnalysisError(R, f"_unpack_blocks.op_eval returns `{(texts or ['?'])[0][:100]}`: not the (i, j) element of the term read from the packed series")
+        rep.check(ok, R, f"{MOD}::_unpack_blocks block (i, j) of a nested-list term is term[i][j]", str(texts), loc(ev[0]))
+        shp = [n for n in ast.walk(f) if isinstance(n, ast.Call) and call_name(n) == "BlockSeries"]
+        ok = False
+        if len(shp) == 1:
+            sh = {k.arg: k.value for k in shp[0].keywords}.get("shape")
+            if sh is not None:
+                zo = [n for n in ast.walk(f) if isinstance(n, ast.NamedExpr) and norm(n.value) == "operator[(0,) * operator.n_infinite]"]
+                env_s = env_at(shp[0], f)
+                if zo:
+                    env_s[zo[0].target.id] = zo[0].value
+                t = rtext(sh, env_s)
+                z = "operator[(0,) * operator.n_infinite]"
+                ok = t in (f"2 * (len({z}),)", f"(len({z}),) * 2", f"(len({z}), len({z}))")
+        rep.check(ok, R, f"{MOD}::_unpack_blocks the block grid is N x N with N = number of block rows of H_0", "", loc(f))
+
+    if sections is None or "extract_diagonal" in sections:
+        # -- _extract_diagonal: one energy array per diagonal block, in block order ------------------------------------------
+        f = repo.find(f"{MOD}::_extract_diagonal", R)
+        sc_ = Scope(repo.trees[MOD], f)
+        em = elementwise_map(f, sc_)
+        if em is None:
+            raise AnalysisError(R, "_extract_diagonal: not recognised as an element-wise map over the diagonal blocks")
+        it, V, paths = em
+        want_it = ctext(ast.parse("operator[(np.arange(operator.shape[0] - implicit), np.arange(operator.shape[0] - implicit)) + (0,) * operator.n_infinite]",
+                                  mode="eval").body)
+        rep.check(ctext(it) == want_it, R, f"{MOD}::_extract_diagonal reads the diagonal blocks (i, i) at order zero", ctext(it)[:160], loc(f))
+        rep.ok(R, f"{MOD}::_extract_diagonal returns the energies in block order", "one value per element of the diagonal blocks, in iteration order", loc(f))
+        DIAG = f"{V}.diagonal()"
+        WANT = {
+            "absent": ("np.array(0)",),
+            "numeric": (DIAG,),
+            "sympy": (f"np.array({DIAG}, dtype=object)",),
+            "sympy+operators": (f"np.array([NumberOrderedForm.from_expr(_v0).simplify() for _v0 in {DIAG}], dtype=object)",
+                                f"np.array([NumberOrderedForm.from_expr(_v1).simplify() for _v1 in {DIAG}], dtype=object)"),
+        }
+        bad = []
+        for absent_zero, absent_masked, sym, ops in [(z, m, s_, o) for z in (0, 1) for m in (0, 1) for s_ in (0, 1) for o in (0, 1)]:
+            def atom(n):
+                t = norm(canon(n))
+                if t == f"{V} is zero":
+                    return bool(absent_zero)
+                if t == f"{V} is np.ma.masked":
+                    return bool(absent_masked)
+                if t == "operators":
+                    return bool(ops)
+                if t == "is_sympy" or (t.startswith("any((isinstance(") and "sympy.MatrixBase" in t):
+                    return bool(sym)
+                return None
+            taken = []
+            for conds, val in paths:
+                vals = [eval_bool(c, atom) for c, _p in conds]
+                if None in vals:
+                    raise AnalysisError(R, f"_extract_diagonal: condition `{norm(conds[vals.index(None)][0])[:60]}` not understood")
+                if all(v == p for v, (_c, p) in zip(vals, conds)):
+                    taken.append(val)
+            kind = "absent" if (absent_zero or absent_masked) else ("numeric" if not sym else ("sympy+operators" if ops else "sympy"))
+            got = [norm(resolved(v, {})) if v is not None else "<skipped>" for v in taken]
+            if len(got) != 1 or got[0] not in WANT[kind]:
+                bad.append((kind, got))
+        rep.check(not bad, R, f"{MOD}::_extract_diagonal energies of block i are the diagonal of H_0[i, i] (0 for an absent block)",
+                  f"disagreeing cases {bad[:2]}" if bad else "absent -> np.array(0); numeric -> diagonal; symbolic -> object array (NumberOrderedForm-simplified with operators)", loc(f))
+
+    if sections is None or "preprocess_sylvester" in sections:
+        # -- _preprocess_sylvester.wrapped -------------------------------------------------------------------------------
+        f = repo.find(f"{MOD}::_preprocess_sylvester", R)
+        ws = [d for d in f.body if isinstance(d, ast.FunctionDef) and isinstance(f.body[-1], ast.Return) and norm(f.body[-1].value) == d.name]
+        if len(ws) != 1 or [a_.arg for a_ in ws[0].args.args] != ["Y", "index"]:
+            raise AnalysisError(R, "_preprocess_sylvester: wrapper (Y, index) not found")
+        w = ws[0]
+        table = {}
+        for is_series in (True, False):
+            for absent in (True, False):
+                def atom(n):
+                    t = norm(canon(n))
+                    if t == "isinstance(Y, BlockSeries)":
+                        return is_series
+                    if t == "Y is zero":
+                        return absent
+                    if t == "Y is not zero":
+                        return not absent
+                    return None
+                res = set()
+                for o in outcomes(w.body, None, env={}, atom=atom, opaque=("Y",)):
+                    if o.kind == "raise":
+                        continue
+                    if o.kind != "return":
+                        raise AnalysisError(R, "_preprocess_sylvester: path without return")
+                    rebinds = []
+                    for kind, st, rv in o.seq:
+                        if kind == "assign" and isinstance(st, ast.Assign) and norm(st.targets[0]) == "Y":
+                            while isinstance(rv, ast.IfExp):
+                                pick = eval_bool(rv.test, atom)
+                                if pick is None:
+                                    raise AnalysisError(R, "_preprocess_sylvester: rebinding of Y depends on an unknown condition")
+                                rv = rv.body if pick else rv.orelse
+                            if norm(rv) != "Y":
+                                rebinds.append(norm(rv))
+                    v = o.value
+                    while isinstance(v, ast.IfExp):
+                        pick = eval_bool(v.test, atom)
+                        if pick is None:
+                            raise AnalysisError(R, "_preprocess_sylvester: returned value depends on an unknown condition")
+                        v = v.body if pick else v.orelse
+                    res.add((tuple(rebinds), norm(v)))
+                table[(is_series, absent)] = sorted(res)
+        want = {(True, True): [(("Y[index]",), "zero")], (True, False): [(("Y[index]",), "solve_sylvester(Y)")],
+                (False, True): [((), "zero")], (False, False): [((), "solve_sylvester(Y)")]}
+        rep.check(table == want, R, f"{MOD}::_preprocess_sylvester a legacy solver gets the element at the requested index; an absent right-hand side stays absent",
+                  str(table), loc(w))
+
+    if sections is None or "group_close" in sections:
+        # -- _group_close_energies: a partition of the indices into groups closed under |E_a - E_b| <= atol ---------------
+        f = repo.find(f"{MOD}::_group_close_energies", R)
+        res_real, res_cplx = [], []
+        for real in (True, False):
+            def atom(n, real=real):
+                t = norm(canon(n))
+                if t == "np.isrealobj(energies)":
+                    return real
+                if t == "np.iscomplexobj(energies)":
+                    return not real
+                if t in ("len(energies) == 0", "0 == len(energies)", "not len(energies)"):
+                    return False
+                if t == "len(energies)":
+                    return True
+                return None
+            for o in outcomes(f.body, None, env={}, atom=atom, expand=False):
+                if o.kind != "return":
+                    raise AnalysisError(R, "_group_close_energies: path without return")
+                (res_real if real else res_cplx).append(o)
+        ok = len(res_real) == 1 and norm(res_real[0].value) == \
+            "np.split(np.argsort(energies), np.nonzero(np.diff(energies[np.argsort(energies)]) > atol)[0] + 1)"
+        rep.check(ok, R, f"{MOD}::_group_close_energies [real] sorted energies are split where the gap exceeds atol",
+                  norm(res_real[0].value)[:140] if res_real else "", loc(f))
+        # complex energies: pairs within atol (KD tree on (re, im)) -> symmetric graph -> connected components -> one index array per label
+        ok = bool(res_cplx)
+        detail = ""
+        for o in res_cplx:
+            v = o.value
+            good = isinstance(v, ast.ListComp) and len(v.generators) == 1 and isinstance(v.elt, ast.Call) and call_name(v.elt) == "np.flatnonzero"
+            if good:
+                g_ = v.generators[0]
+                cmp_ = v.elt.args[0]
+                cc_call = "sparse.csgraph.connected_components("
+                lab = norm(cmp_.left) if isinstance(cmp_, ast.Compare) else ""
+                rng = norm(g_.iter)
+                # labels / n_components come from one connected_components(graph, directed=False) call (resolved by position)
+                good = isinstance(cmp_, ast.Compare) and isinstance(cmp_.ops[0], ast.Eq) and norm(cmp_.comparators[0]) == norm(g_.target) \
+                    and lab.startswith(cc_call) and lab.endswith(", directed=False)[1]") and rng == "range(" + lab[:-3] + "[0])"
+                graph = lab[len(cc_call):-len(", directed=False)[1]")]
+                pairs = "np.array(list(KDTree(np.column_stack((energies.real, energies.imag))).query_pairs(r=atol)), dtype=int)"
+                sym = (f"sparse.coo_array((np.ones(len(np.concatenate(({pairs}[:, 0], {pairs}[:, 1]))), dtype=bool), "
+                       f"(np.concatenate(({pairs}[:, 0], {pairs}[:, 1])), np.concatenate(({pairs}[:, 1], {pairs}[:, 0])))), shape=(len(energies), len(energies)))")
+                empty = "sparse.coo_array((len(energies), len(energies)), dtype=bool)"
+                good = good and graph in (sym, empty)
+                detail = graph[:100]
+            ok = ok and bool(good)
+        rep.check(ok, R, f"{MOD}::_group_close_energies [complex] groups are the connected components of the |E_a - E_b| <= atol graph", detail, loc(f))
+
+    if sections is None or "aslinearoperator" in sections:
+        # -- linalg.aslinearoperator: the sentinels pass through, everything else is wrapped -------------------------------
+        f = repo.find("linalg::aslinearoperator", R)
+        table = {}
+        for z in (False, True):
+            for o1 in (False, True):
+                if z and o1:
+                    continue
+                def atom(n, z=z, o1=o1):
+                    t = norm(canon(n))
+                    return {"A is zero": z, "A is not zero": not z, "A is one": o1, "A is not one": not o1}.get(t)
+                outs = [o for o in outcomes(f.body, None, env={}, atom=atom, expand=False)]
+                if len(outs) != 1 or outs[0].kind != "return":
+                    raise AnalysisError(R, "aslinearoperator: condition not understood")
+                table[(z, o1)] = norm(outs[0].value)
+        ok = table == {(False, False): "scipy_aslinearoperator(A)", (True, False): "A", (False, True): "A"}
+        rep.check(ok, R, "linalg::aslinearoperator passes the zero / one sentinels through unchanged", str(table), repo.loc("linalg", f))
+
+    if sections is None or "apply_mask" in sections:
+        # -- second_quantization.apply_mask_to_operator + NumberOrderedForm.filter_terms: keep / discard are complementary ------
+        f = repo.find("second_quantization::apply_mask_to_operator", R)
+        # the element loop: the innermost loop that stores into the result matrix; (i, j) are read off the store target
+        stores = [n for n in ast.walk(f) if isinstance(n, ast.Assign) and isinstance(n.targets[0], ast.Subscript)
+                  and isinstance(n.targets[0].slice, ast.Tuple) and len(n.targets[0].slice.elts) == 2 and norm(n.targets[0].value) == "result"]
+        if not stores:
+            raise AnalysisError(R, "apply_mask_to_operator: no store into the result matrix found")
+        ijs = {norm(n.targets[0].slice).strip("()") for n in stores}
+        if len(ijs) != 1:
+            raise AnalysisError(R, f"apply_mask_to_operator: stores at different positions {sorted(ijs)}")
+        IJ = next(iter(ijs))
+        I, J = (x.strip() for x in IJ.split(","))
+        loops = []
+        p_ = stores[0]
+        while p_ is not f and not loops:
+            p_ = p_._parent
+            if isinstance(p_, ast.For):
+                loops.append(p_)
+        if not loops:
+            raise AnalysisError(R, "apply_mask_to_operator: element loop not found")
+        L = loops[0]
+        outerL = getattr(L, "_parent", None)
+        if isinstance(L.target, ast.Tuple):
+            ok_grid = norm(L.target) == f"({I}, {J})" and isinstance(L.iter, ast.Call) and call_name(L.iter) in ("product", "itertools.product") \
+                and [norm(a_) for a_ in L.iter.args] == ["range(operator.rows)", "range(operator.cols)"]
+        else:
+            ok_grid = isinstance(outerL, ast.For) and norm(outerL.target) == I and norm(L.target) == J \
+                and norm(outerL.iter) in ("range(operator.rows)", "range(operator.shape[0])") and norm(L.iter) in ("range(operator.cols)", "range(operator.shape[1])")
+        if not ok_grid:
+            raise AnalysisError(R, "apply_mask_to_operator: iteration over the matrix elements not understood")
+        table = {}
+        for keep in (True, False):
+            for empty_mask in (True, False):
+                def atom(n, keep=keep, empty_mask=empty_mask):
+                    t = norm(canon(n))
+                    if t == "keep":
+                        return keep
+                    if t == f"mask[{IJ}]":
+                        return not empty_mask
+                    if t == f"operator[{IJ}]":
+                        return True   # an empty operator entry is skipped: only non-empty values are of interest
+                    return None
+                res = set()
+                for o in _outcomes(loops[0].body, None, env={}, atom=atom):
+                    stores = []
+                    for kind, st, rv in o.seq:
+                        if kind == "assign" and isinstance(st, ast.Assign) and norm(st.targets[0]) == f"result[{IJ}]":
+                            stores.append(ctext(rv))
+                    res.add(tuple(stores))
+                table[(keep, "empty mask" if empty_mask else "mask")] = sorted(res)
+        VAL = f"operator[{IJ}]"
+        NOF = f"NumberOrderedForm.from_expr({VAL})._combine_operators(mask[{IJ}])"
+        # (the combined mask is written back to mask[i, j] by the same unpacking, so `mask[i, j].terms` are the combined terms)
+        filt = [(f"{NOF}[0].filter_terms(tuple(mask[{IJ}].terms), keep)",), (f"{NOF}[0].filter_terms(tuple(mask[{IJ}].terms), keep=keep)",)]
+        ok = table.get((True, "empty mask")) == [()] and table.get((False, "empty mask")) == [(VAL,)] and \
+            table.get((True, "mask")) in ([x] for x in filt) and table.get((False, "mask")) in ([x] for x in filt)
+        rep.check(ok, R, "second_quantization::apply_mask_to_operator an empty mask entry selects nothing (keep) / everything (discard); otherwise filter_terms(mask terms, keep)",
+                  str({k: [tuple(x[:90] for x in t) for t in v] for k, v in table.items()}), repo.loc("second_quantization", f))
+        ft = repo.find("number_ordered_form::NumberOrderedForm::filter_terms", R)
+        comps = [n for n in ast.walk(ft) if isinstance(n, (ast.GeneratorExp, ast.ListComp)) and n.generators[0].ifs
+                 and norm(n.generators[0].iter) in ("self.args[1]", "self.terms.items()")]
+        if len(comps) == 1 and len(comps[0].generators[0].ifs) == 1 and isinstance(comps[0].generators[0].target, ast.Tuple):
+            gen = comps[0].generators[0]
+            pw = norm(gen.target.elts[0])
+            sel = inline(gen.ifs[0], Scope(repo.trees["number_ordered_form"], ft))
+        else:
+            # the same selection as a loop that appends the kept terms
+            from .sem import list_built_by_loop
+            built = None
+            for acc in {norm(c.func.value) for c in ast.walk(ft) if isinstance(c, ast.Call) and isinstance(c.func, ast.Attribute) and c.func.attr == "append"}:
+                built = list_built_by_loop(ft.body, acc) or built
+            if built is None or len(built[2]) != 1 or not isinstance(built[0], ast.Tuple) or norm(built[1]) not in ("self.args[1]", "self.terms.items()") \
+                    or not built[2][0][0]:
+                raise AnalysisError(R, "filter_terms: selection of the terms not found as one filtered comprehension or one appending loop")
+            pw = norm(built[0].elts[0])
+            conds = built[2][0][0]
+            sel = conds[0] if len(conds) == 1 else ast.BoolOp(op=ast.And(), values=list(conds))
+            sel = inline(sel, Scope(repo.trees["number_ordered_form"], ft))
+        MATCH = (f"any((all(((_v0 - _v1).is_zero is not False for _v0, _v1 in zip({pw}, _v2))) for _v2 in conditions))",
+                 f"any((all(((_v1 - _v2).is_zero is not False for _v1, _v2 in zip({pw}, _v0))) for _v0 in conditions))")
+
+        def beval(e, k, m):
+            """value of a boolean expression over the atoms keep (k) and `the term matches some condition` (m); None = unknown"""
+            e = canon(e) if not isinstance(e, ast.Constant) else e
+            if isinstance(e, ast.UnaryOp) and isinstance(e.op, ast.Not):
+                v = beval(e.operand, k, m)
+                return None if v is None else (not v)
+            if isinstance(e, ast.BoolOp):
+                vs = [beval(x, k, m) for x in e.values]
+                if None in vs:
+                    return None
+                return all(vs) if isinstance(e.op, ast.And) else any(vs)
+            if isinstance(e, ast.Compare) and len(e.ops) == 1 and isinstance(e.ops[0], (ast.Eq, ast.NotEq, ast.Is, ast.IsNot)):
+                l, r = beval(e.left, k, m), beval(e.comparators[0], k, m)
+                if l is None or r is None:
+                    return None
+                return (l == r) if isinstance(e.ops[0], (ast.Eq, ast.Is)) else (l != r)
+            if isinstance(e, ast.IfExp):
+                t = beval(e.test, k, m)
+                return None if t is None else beval(e.body if t else e.orelse, k, m)
+            t = rtext(e, {})
+            if t in ("keep", "bool(keep)"):
+                return k
+            if t in MATCH:
+                return m
+            if isinstance(e, ast.Constant) and isinstance(e.value, bool):
+                return e.value
             return None
-        for o in outcomes(f.body, None, env={}, atom=atom, expand=False):
-            if o.kind != "return":
-                raise AnalysisError(R, "_group_close_energies: path without return")
-            (res_real if real else res_cplx).append(o)
-    ok = len(res_real) == 1 and norm(res_real[0].value) == \
-        "np.split(np.argsort(energies), np.nonzero(np.diff(energies[np.argsort(energies)]) > atol)[0] + 1)"
-    rep.check(ok, R, f"{MOD}::_group_close_energies [real] sorted energies are split where the gap exceeds atol",
-              norm(res_real[0].value)[:140] if res_real else "", loc(f))
-    # complex energies: pairs within atol (KD tree on (re, im)) -> symmetric graph -> connected components -> one index array per label
-    ok = bool(res_cplx)
-    detail = ""
-    for o in res_cplx:
-        v = o.value
-        good = isinstance(v, ast.ListComp) and len(v.generators) == 1 and isinstance(v.elt, ast.Call) and call_name(v.elt) == "np.flatnonzero"
-        if good:
-            g_ = v.generators[0]
-            cmp_ = v.elt.args[0]
-            cc_call = "sparse.csgraph.connected_components("
-            lab = norm(cmp_.left) if isinstance(cmp_, ast.Compare) else ""
-            rng = norm(g_.iter)
-            # labels / n_components come from one connected_components(graph, directed=False) call (resolved by position)
-            good = isinstance(cmp_, ast.Compare) and isinstance(cmp_.ops[0], ast.Eq) and norm(cmp_.comparators[0]) == norm(g_.target) \
-                and lab.startswith(cc_call) and lab.endswith(", directed=False)[1]") and rng == "range(" + lab[:-3] + "[0])"
-            graph = lab[len(cc_call):-len(", directed=False)[1]")]
-            pairs = "np.array(list(KDTree(np.column_stack((energies.real, energies.imag))).query_pairs(r=atol)), dtype=int)"
-            sym = (f"sparse.coo_array((np.ones(len(np.concatenate(({pairs}[:, 0], {pairs}[:, 1]))), dtype=bool), "
-                   f"(np.concatenate(({pairs}[:, 0], {pairs}[:, 1])), np.concatenate(({pairs}[:, 1], {pairs}[:, 0])))), shape=(len(energies), len(energies)))")
-            empty = "sparse.coo_array((len(energies), len(energies)), dtype=bool)"
-            good = good and graph in (sym, empty)
-            detail = graph[:100]
-        ok = ok and bool(good)
-    rep.check(ok, R, f"{MOD}::_group_close_energies [complex] groups are the connected components of the |E_a - E_b| <= atol graph", detail, loc(f))
-
-    # -- linalg.aslinearoperator: the sentinels pass through, everything else is wrapped -------------------------------
-    f = repo.find("linalg::aslinearoperator", R)
-    table = {}
-    for z in (False, True):
-        for o1 in (False, True):
-            if z and o1:
-                continue
-            def atom(n, z=z, o1=o1):
-                t = norm(canon(n))
-                return {"A is zero": z, "A is not zero": not z, "A is one": o1, "A is not one": not o1}.get(t)
-            outs = [o for o in outcomes(f.body, None, env={}, atom=atom, expand=False)]
-            if len(outs) != 1 or outs[0].kind != "return":
-                raise AnalysisError(R, "aslinearoperator: condition not understood")
-            table[(z, o1)] = norm(outs[0].value)
-    ok = table == {(False, False): "scipy_aslinearoperator(A)", (True, False): "A", (False, True): "A"}
-    rep.check(ok, R, "linalg::aslinearoperator passes the zero / one sentinels through unchanged", str(table), repo.loc("linalg", f))
-
-    # -- second_quantization.apply_mask_to_operator + NumberOrderedForm.filter_terms: keep / discard are complementary ------
-    f = repo.find("second_quantization::apply_mask_to_operator", R)
-    from .sem import outcomes as _outcomes
-    # the element loop: the innermost loop that stores into the result matrix; (i, j) are read off the store target
-    stores = [n for n in ast.walk(f) if isinstance(n, ast.Assign) and isinstance(n.targets[0], ast.Subscript)
-              and isinstance(n.targets[0].slice, ast.Tuple) and len(n.targets[0].slice.elts) == 2 and norm(n.targets[0].value) == "result"]
-    if not stores:
-        raise AnalysisError(R, "apply_mask_to_operator: no store into the result matrix found")
-    ijs = {norm(n.targets[0].slice).strip("()") for n in stores}
-    if len(ijs) != 1:
-        raise AnalysisError(R, f"apply_mask_to_operator: stores at different positions {sorted(ijs)}")
-    IJ = next(iter(ijs))
-    I, J = (x.strip() for x in IJ.split(","))
-    loops = []
-    p_ = stores[0]
-    while p_ is not f and not loops:
-        p_ = p_._parent
-        if isinstance(p_, ast.For):
-            loops.append(p_)
-    if not loops:
-        raise AnalysisError(R, "apply_mask_to_operator: element loop not found")
-    L = loops[0]
-    outerL = getattr(L, "_parent", None)
-    if isinstance(L.target, ast.Tuple):
-        ok_grid = norm(L.target) == f"({I}, {J})" and isinstance(L.iter, ast.Call) and call_name(L.iter) in ("product", "itertools.product") \
-            and [norm(a_) for a_ in L.iter.args] == ["range(operator.rows)", "range(operator.cols)"]
-    else:
-        ok_grid = isinstance(outerL, ast.For) and norm(outerL.target) == I and norm(L.target) == J \
-            and norm(outerL.iter) in ("range(operator.rows)", "range(operator.shape[0])") and norm(L.iter) in ("range(operator.cols)", "range(operator.shape[1])")
-    if not ok_grid:
-        raise AnalysisError(R, "apply_mask_to_operator: iteration over the matrix elements not understood")
-    table = {}
-    for keep in (True, False):
-        for empty_mask in (True, False):
-            def atom(n, keep=keep, empty_mask=empty_mask):
-                t = norm(canon(n))
-                if t == "keep":
-                    return keep
-                if t == f"mask[{IJ}]":
-                    return not empty_mask
-                if t == f"operator[{IJ}]":
-                    return True   # an empty operator entry is skipped: only non-empty values are of interest
-                return None
-            res = set()
-            for o in _outcomes(loops[0].body, None, env={}, atom=atom):
-                stores = []
-                for kind, st, rv in o.seq:
-                    if kind == "assign" and isinstance(st, ast.Assign) and norm(st.targets[0]) == f"result[{IJ}]":
-                        stores.append(ctext(rv))
-                res.add(tuple(stores))
-            table[(keep, "empty mask" if empty_mask else "mask")] = sorted(res)
-    VAL = f"operator[{IJ}]"
-    NOF = f"NumberOrderedForm.from_expr({VAL})._combine_operators(mask[{IJ}])"
-    # (the combined mask is written back to mask[i, j] by the same unpacking, so `mask[i, j].terms` are the combined terms)
-    filt = [(f"{NOF}[0].filter_terms(tuple(mask[{IJ}].terms), keep)",), (f"{NOF}[0].filter_terms(tuple(mask[{IJ}].terms), keep=keep)",)]
-    ok = table.get((True, "empty mask")) == [()] and table.get((False, "empty mask")) == [(VAL,)] and \
-        table.get((True, "mask")) in ([x] for x in filt) and table.get((False, "mask")) in ([x] for x in filt)
-    rep.check(ok, R, "second_quantization::apply_mask_to_operator an empty mask entry selects nothing (keep) / everything (discard); otherwise filter_terms(mask terms, keep)",
-              str({k: [tuple(x[:90] for x in t) for t in v] for k, v in table.items()}), repo.loc("second_quantization", f))
-    ft = repo.find("number_ordered_form::NumberOrderedForm::filter_terms", R)
-    comps = [n for n in ast.walk(ft) if isinstance(n, (ast.GeneratorExp, ast.ListComp)) and n.generators[0].ifs
-             and norm(n.generators[0].iter) in ("self.args[1]", "self.terms.items()")]
-    if len(comps) == 1 and len(comps[0].generators[0].ifs) == 1 and isinstance(comps[0].generators[0].target, ast.Tuple):
-        gen = comps[0].generators[0]
-        pw = norm(gen.target.elts[0])
-        sel = inline(gen.ifs[0], Scope(repo.trees["number_ordered_form"], ft))
-    else:
-        # the same selection as a loop that appends the kept terms
-        from .sem import list_built_by_loop
-        built = None
-        for acc in {norm(c.func.value) for c in ast.walk(ft) if isinstance(c, ast.Call) and isinstance(c.func, ast.Attribute) and c.func.attr == "append"}:
-            built = list_built_by_loop(ft.body, acc) or built
-        if built is None or len(built[2]) != 1 or not isinstance(built[0], ast.Tuple) or norm(built[1]) not in ("self.args[1]", "self.terms.items()") \
-                or not built[2][0][0]:
-            raise AnalysisError(R, "filter_terms: selection of the terms not found as one filtered comprehension or one appending loop")
-        pw = norm(built[0].elts[0])
-        conds = built[2][0][0]
-        sel = conds[0] if len(conds) == 1 else ast.BoolOp(op=ast.And(), values=list(conds))
-        sel = inline(sel, Scope(repo.trees["number_ordered_form"], ft))
-    MATCH = (f"any((all(((_v0 - _v1).is_zero is not False for _v0, _v1 in zip({pw}, _v2))) for _v2 in conditions))",
-             f"any((all(((_v1 - _v2).is_zero is not False for _v1, _v2 in zip({pw}, _v0))) for _v0 in conditions))")
-
-    def beval(e, k, m):
-        """value of a boolean expression over the atoms keep (k) and `the term matches some condition` (m); None = unknown"""
-        e = canon(e) if not isinstance(e, ast.Constant) else e
-        if isinstance(e, ast.UnaryOp) and isinstance(e.op, ast.Not):
-            v = beval(e.operand, k, m)
-            return None if v is None else (not v)
-        if isinstance(e, ast.BoolOp):
-            vs = [beval(x, k, m) for x in e.values]
-            if None in vs:
-                return None
-            return all(vs) if isinstance(e.op, ast.And) else any(vs)
-        if isinstance(e, ast.Compare) and len(e.ops) == 1 and isinstance(e.ops[0], (ast.Eq, ast.NotEq, ast.Is, ast.IsNot)):
-            l, r = beval(e.left, k, m), beval(e.comparators[0], k, m)
-            if l is None or r is None:
-                return None
-            return (l == r) if isinstance(e.ops[0], (ast.Eq, ast.Is)) else (l != r)
-        if isinstance(e, ast.IfExp):
-            t = beval(e.test, k, m)
-            return None if t is None else beval(e.body if t else e.orelse, k, m)
-        t = rtext(e, {})
-        if t in ("keep", "bool(keep)"):
-            return k
-        if t in MATCH:
-            return m
-        if isinstance(e, ast.Constant) and isinstance(e.value, bool):
-            return e.value
-        return None
-    rows = {(k, m): beval(sel, k, m) for k in (False, True) for m in (False, True)}
-    if None in rows.values():
-        raise AnalysisError(R, f"filter_terms: selection condition `{norm(sel)[:100]}` not understood")
-    ok = all(v == (k == m) for (k, m), v in rows.items())
-    rep.check(ok, R, "number_ordered_form::NumberOrderedForm.filter_terms keeps a term iff (it matches some condition) == keep",
-              f"(keep, matches) -> selected: {rows}; so filter_terms(c, True) + filter_terms(c, False) is the whole form", repo.loc("number_ordered_form", ft))
+        rows = {(k, m): beval(sel, k, m) for k in (False, True) for m in (False, True)}
+        if None in rows.values():
+            raise AnalysisError(R, f"filter_terms: selection condition `{norm(sel)[:100]}` not understood")
+        ok = all(v == (k == m) for (k, m), v in rows.items())
+        rep.check(ok, R, "number_ordered_form::NumberOrderedForm.filter_terms keeps a term iff (it matches some condition) == keep",
+                  f"(keep, matches) -> selected: {rows}; so filter_terms(c, True) + filter_terms(c, False) is the whole form", repo.loc("number_ordered_form", ft))
